@@ -357,7 +357,7 @@ def ext_call(ev, dotted, args, kwargs, fr, node):
         a = _kw(args, kwargs, ['obj', 'indent'], {'indent': T.NONE})
         return T.raw_op('JSON', a['obj'], a['indent'])
     if dotted == 'io.BytesIO':
-        return T.raw_op('STREAM', args[0] if args else T.const(b''), T.const(0))
+        return ev.new_stream(args[0] if args else T.const(b''))
     # ---------------------------------------------------------------- randomness
     if dotted in ('random.SystemRandom', 'secrets.SystemRandom'):
         return T.raw_op('CSPRNG', T.const(dotted))
@@ -503,11 +503,18 @@ def method_call(ev, recv, name, args, kwargs, fr, node):
             return T.raw_op('RANDBITS', recv, args[0])
         return T.raw_op('RANDVAL', recv, T.const(name), *args)
     if T.is_op(recv, 'STREAM'):
-        if name == 'read' and args and T.is_const(args[0]) and isinstance(args[0][1], int) and T.is_const(recv[3]):
-            n, pos = args[0][1], recv[3][1]
-            val = T.slice_(recv[2], T.const(pos), T.const(pos + n))
-            if node is not None and isinstance(node.func.value, ast.Name) and node.func.value.id in fr.env:
-                fr.env[node.func.value.id] = T.raw_op('STREAM', recv[2], T.const(pos + n))
+        if name == 'read' and len(args) <= 1:
+            data, pos = ev.heap[recv[2][1]]
+            if args and args[0] != T.NONE:
+                n = args[0]
+                end = T.add(pos, n)
+                val = T.slice_(data, pos, end)
+            else:
+                n = T.NONE
+                end = T.len_(data)
+                val = T.slice_(data, pos, T.NONE)
+            ev.reads.append((val, n, fr.fn.qual if fr.fn else None, node.lineno if node is not None else 0))
+            ev.heap[recv[2][1]] = (data, end)
             return val
         return T.opaque('stream.%s' % name)
     if tb == 'point':
